@@ -854,8 +854,12 @@ def op_cli_analyze(case, G, ins, tmp):
     with warnings.catch_warnings():
         warnings.simplefilter("ignore")
         _run_main(M, ["analyze_model_evaluation", "--model-evaluation", me, "--screen", data, "--thetas"] + files + ["--output-dir", outd, "--seed", str(case["seed"])])
+    # Lean op cliAnalyzeModelEvaluation: n regression plots x k bootstrap draws.  Which per-sample plots bootstrap is decided inside seaborn
+    # (value dependent), so n is taken from the observed event count (as for the ensemble smoother); k is seaborn's n_boot = 1000.
+    ne = len(ins.events)
+    toks = ["n=%d" % (ne // 1000), "k=1000"] if ne % 1000 == 0 else ["n=1", "k=%d" % ne]
     with open(os.path.join(outd, "summary_statistics.json")) as f:
-        return None, [], f.read()
+        return "cliAnalyzeModelEvaluation", toks, f.read()
 
 
 OPS = {"sparse_cover": op_sparse_cover, "generator": op_generator, "smoother": op_smoother, "holdout_random": op_holdout_random,
@@ -969,7 +973,7 @@ def in_scope(case):
 ANALYZE_SIGNATURE = "C18:analyze-plots-ignore-seed"
 
 
-def judge_analyze(case, A, B, res):
+def judge_analyze(case, A, B, res, queue=None):
     """analyze_model_evaluation --seed: before fix `analyze_model_evaluation hands the --seed generator to the regression plots` the option was
     accepted and ignored -- plotting.predicted_vs_observed_scatterplot calls seaborn.regplot, whose bootstrap of the confidence band made an
     unseeded `np.random.default_rng()`, so the plots differed from run to run.  Every draw of the command must come from the generator of --seed."""
@@ -985,6 +989,13 @@ def judge_analyze(case, A, B, res):
             {k: v for k, v in (B.get("files") or {}).items() if v != "present"}:
         res.fail("analyze_model_evaluation run twice with the same --seed writes different summary statistics / data files", case,
                  {"run1": (A["out"] or A["err"])[:300], "run2": (B["out"] or B["err"])[:300]}, "identical outputs", signature="C18:two-runs-differ:cli_analyze")
+    if queue is not None and A["err"] is None and A["model_op"] is not None:
+        # tie with the Lean op: every event `G.integers`, in whole multiples of the bootstrap size, at most one plot per sample + the overall one
+        queue("cli_analyze", case, " ".join(["c18.trace", A["model_op"]] + A["toks"]), ",".join(A["events"]) if A["events"] else "-")
+        n_plots = int(A["toks"][0].split("=")[1])
+        n_max = 1 + len({r[0] for r in case["screen"]["rows"]})
+        if A["toks"][1] != "k=1000" or not (1 <= n_plots <= n_max):
+            res.disagree("C18:trace:cli_analyze:shape", {"op": "cli_analyze"}, "%d events" % len(A["events"]), "1..%d regression plots x 1000 bootstrap draws" % n_max)
     return A, A["err"] is None
 
 
@@ -999,7 +1010,7 @@ def judge(case, res, queue=None):
         res.count("wrapper.unexpected-call")
         res.disagree("C18:recording-wrapper:" + op, {"op": op}, "harness wrapper: " + werr[0][:300], "a call form the recording wrapper can interpret")
     if op == "cli_analyze":
-        return judge_analyze(case, A, B, res)
+        return judge_analyze(case, A, B, res, queue)
     label = op + ("" if in_scope(case) else ":norng")
     if in_scope(case):
         bad = [e for e in A["events"] + B["events"] if not e.startswith("G.")]
